@@ -708,7 +708,7 @@ func (g pairGen) nearMisses() {
 		"ports": {{"unequal-ranges", "8000-8002:80-81"}, {"reversed", "90-80"}, {"too-big", "65536"}, {"too-big-host", "65536:80"}, {"empty-container", "80:"}, {"empty", ""},
 			{"bad-proto", "80/http"}, {"bad-ip", "1.2.3:80:80"}, {"unbracketed-v6", "::1:80:80"}, {"letters", "http"}, {"negative", "-1"}, {"empty-host-range", "80-:80"}, {"plus", "+80"},
 			{"space", " 80"}, {"triple-range", "80-81-82"}, {"proto-tail", "80/tcp/x"}, {"hex", "0x50"}, {"underscore", "8_0"}},
-		"volumes": {{"empty-section", "vol::/b"}, {"too-many-colons", "vol:/b:ro:rw"}, {"empty", ""}, {"trailing-colon", "vol:/b:"}, {"leading-colon", ":/b"}},
+		"volumes": {{"empty-section", "vol::/b"}, {"too-many-colons", "vol:/b:ro:rw"}, {"empty", ""}, {"trailing-colon", "vol:/b:"}, {"leading-colon", ":/b"}, {"letter-section", "vol:/b:z:ro"}},
 		"devices": {{"four-parts", "a:b:c:d"}},
 	}
 	for attr, l := range bad {
